@@ -10,8 +10,8 @@ from util import call, quiet
 from props.C06 import describe, rules
 from props.C11 import _coord_map
 
-REQUIRED_THEOREMS = ['Usid.C12.group_sizes', 'Usid.C12.reduced_anc_all_removed', 'Usid.C12.reduced_anc_keeps_labels',
-                     'Usid.C12.memory_rejects']
+REQUIRED_THEOREMS = ['Usid.C12.cell_exact', 'Usid.C12.group_sizes', 'Usid.C12.reduced_anc_all_removed',
+                     'Usid.C12.reduced_anc_keeps_labels', 'Usid.C12.memory_rejects']
 RULE = ('generator datasets (1-3 dimensions per side, sizes 1-4, any storage order, integer-valued data) x non-empty subsets '
         'of their dimensions (thorough: EVERY non-empty subset) x {mean, sum, max, min, std} x the wrapper\'s view (file order, '
         'sorted at construction, toggled once or twice); in-memory result compared '
